@@ -3,6 +3,7 @@ import Heathcliff.Proofs.C02W
 import Heathcliff.Proofs.C02V
 import Heathcliff.Proofs.C02K
 import Heathcliff.Proofs.GenEval
+import Heathcliff.Proofs.GenScalingSpec
 
 /- Property theorems only (statements verbatim; proofs are the helper lemmas of Heathcliff/Proofs). -/
 namespace HC.C02
@@ -317,5 +318,35 @@ theorem bfvDecrypt_bfvMultiply_refuses_1x1 : type_of% @HC.bfvDecrypt_bfvMultiply
 theorem bfvDecrypt_bfvMultiply_refuses_ntt : type_of% @HC.bfvDecrypt_bfvMultiply_refuses_ntt := @HC.bfvDecrypt_bfvMultiply_refuses_ntt
 
 theorem c02x_threshold_example : type_of% @HC.c02x_threshold_example := @HC.c02x_threshold_example
+
+/-! ### translator tie, phase 4a: the BFV scaling behind `add_plain` / `sub_plain` (src/util/scaling_variant.rs, generated into
+    `Heathcliff/Gen/ScalingFns.lean`); the `multiply_add_plain` half is restated in Props/C01.lean -/
+
+/-- GENERATED = MODEL: `multiply_sub_plain`, generated from the Rust source, run on the flat destination buffer, IS the hand model
+    `multiplySubPlain` on the corresponding `RnsPoly` (flattened again), successes and arithmetic traps alike.
+    `plain.size ≤ l.n` is a hypothesis because the code has NO `assert!` here: a longer plaintext writes into the neighbouring
+    component and ends in an out-of-bounds panic (non-empty chain), where the model refuses. -/
+theorem gen_multiply_sub_plain_eq (l : Level) (cdp : Array MulOperand) (qModT upperHalf : Nat) (plain : Poly) (dest : List Nat)
+    (hcdp : l.size ≤ cdp.size) (hp : plain.size ≤ l.n) (ht : l.t.value ≠ 0) (hq : qModT < 2^64)
+    (hw : ∀ i, i < plain.size → plain.getD i 0 < 2^64) (hl : dest.length = l.size * l.n) (hB : dest.length < B64) :
+    GenS.multiply_sub_plain dest l.qs.toList plain.size l.n l.t cdp.toList upperHalf qModT plain.toList =
+      Except.map (flattenRns l.size l.n) (multiplySubPlain l cdp qModT upperHalf plain (unflattenRns l.size l.n dest)) :=
+  HC.gz_multiply_sub_plain_eq l cdp qModT upperHalf plain dest hcdp hp ht hq hw hl hB
+
+/-- ONE THEOREM (`sub_plain`, BFV): the code generated from `multiply_sub_plain` subtracts Δ(m_i) = round(Q·m_i/t) modulo q_j from
+    coefficient i of component j and leaves the other words unchanged -/
+theorem gen_multiply_sub_plain_spec {l : Level} {Q : Nat} {cdp : Array MulOperand} (h : ScalingOK l Q cdp) (plain : Poly) (dest : List Nat)
+    (hp : plain.size ≤ l.n) (hm : ∀ i, i < plain.size → plain.getD i 0 < l.t.value)
+    (hl : dest.length = l.size * l.n) (hB : dest.length < B64)
+    (hd : ∀ j, j < l.size → ∀ i, i < plain.size → dest.getD (j * l.n + i) 0 < (l.q j).value) :
+    GenS.multiply_sub_plain dest l.qs.toList plain.size l.n l.t cdp.toList ((l.t.value + 1) / 2) (Q % l.t.value) plain.toList =
+      .ok ((List.range (l.size * l.n)).map fun p =>
+        if p % l.n < plain.size then
+          (dest.getD p 0 + (l.q (p / l.n)).value - deltaM Q l.t.value (plain.getD (p % l.n) 0) % (l.q (p / l.n)).value) % (l.q (p / l.n)).value
+        else dest.getD p 0) :=
+  HC.gen_multiply_sub_plain_spec h plain dest hp hm hl hB hd
+
+/-- ONE THEOREM (`add_plain`, BFV): `multiply_add_plain` adds Δ(m_i) modulo q_j (= `HC.C01.gen_multiply_add_plain_spec`) -/
+theorem gen_multiply_add_plain_spec : type_of% @HC.gen_multiply_add_plain_spec := @HC.gen_multiply_add_plain_spec
 
 end HC.C02
